@@ -83,6 +83,19 @@ Definition complete_qprs (s : dir) (fs : list N) : bool :=
                     match snd e with CQpr f => fkey (FQpr f) =? fst e | _ => false end) s
   && nl_eqb (visible_qprs s) (sortN fs).
 
+Fixpoint info_pub_pos (l : list op) (i : nat) : option nat :=
+  match l with
+  | [] => None
+  | ORename _ FInfo :: _ => Some i
+  | _ :: r => info_pub_pos r (S i)
+  end.
+Definition acked_durable (ops : list op) (acked : nat) : bool :=
+  match info_pub_pos ops 0 with
+  | Some p => (p + 2 <=? acked)%nat && durable (firstn (p + 2) ops)
+              && match nth_error ops (S p) with Some OFsyncDir => true | _ => false end
+  | None => false
+  end.
+
 Record world := {
   w_fs : list N;            (* fractions of the request in the order of asyncSearchInfo.Fractions *)
   w_hi : N; w_rev : bool; w_limit : N; w_naggs : nat;
@@ -110,7 +123,7 @@ Definition case_agrees (c : case) : bool :=
       let mops := start_ops (w_fs w) in
       let fin := apply_ops [] mops in
       list_eqb op_eqb mops ops
-      && (acked =? 6)%nat
+      && (6 <=? acked)%nat
       && Bool.eqb fnd true && Bool.eqb dn true
       && qpr_eqb (fetch_dir (w_hi w) (w_rev w) (w_per w) fin) res
       && qpr_eqb (sync_search (w_naggs w) (w_limit w) (w_hi w) (w_rev w) (map snd (w_per w))) (w_sync w)
@@ -131,10 +144,9 @@ Definition case_spec_ok (c : case) : bool :=
   match c with
   | CRun w ops acked fnd dn reqok res =>
       durable ops && writes_tmp_only ops
-      (* the request is durable before StartSearch returns *)
-      && existsb (fun o => match o with ORename _ FInfo => true | _ => false end) (firstn acked ops)
-      && durable (firstn acked ops)
-      && match nth_error ops (acked - 1) with Some OFsyncDir => true | _ => false end
+      (* the request is durable before StartSearch returns: the rename that publishes <id>.info and the
+         directory fsync after it are among the operations completed before the acknowledgement *)
+      && acked_durable ops acked
       && fnd && dn && reqok
       && nl_eqb (sortN (published_qprs ops)) (sortN (w_fs w))
       && same_answer (w_limit w) res (w_sync w)
